@@ -37,7 +37,6 @@ theorem reachable_exists_run (step : Step σ ℓ) (init s : σ) (h : Reachable s
   | @step s s' l _ hs ih =>
     obtain ⟨ls, hr⟩ := ih
     refine ⟨ls ++ [l], ?_⟩
-    clear ih
     have : ∀ (a : σ) (xs : List ℓ), run step a xs = some s → run step a (xs ++ [l]) = some s' := by
       intro a xs
       induction xs generalizing a with
